@@ -563,7 +563,17 @@ func (server *SugarDB) handleConnection(conn net.Conn) {
 			break
 		}
 
-		res, err := server.handleCommand(ctx, message, &conn, false, false)
+		res, err := func() (res []byte, err error) {
+			// A panic in a command handler must not take down the whole process with every other
+			// connection: it is reported to this client as an error.
+			defer func() {
+				if r := recover(); r != nil {
+					log.Printf("panic while handling command: %v\n", r)
+					res, err = nil, fmt.Errorf("internal error: %v", r)
+				}
+			}()
+			return server.handleCommand(ctx, message, &conn, false, false)
+		}()
 		if err != nil && errors.Is(err, io.EOF) {
 			break
 		}
